@@ -11,7 +11,9 @@ RULE = ("dynamic-scope topologies: 1..5 schema resources (embedded or Loader doc
         "neither on a uniquely marked subschema; entered in a random order through $ref / allOf / $dynamicRef-without-fragment hops "
         "(chain) or through two different properties (fork: several Validate calls on one Resolved take different dynamic paths); the "
         "final $dynamicRef in fragment, resource-relative or pointer form; expected target computed here from the specification's "
-        "rule (outermost declaring resource in scope, else the initial target). Non-trivial: >= 2 resources; distinct = operation text")
+        "rule (outermost declaring resource in scope, else the initial target); dag: 2..4 Loader documents referring to one another in a "
+        "directed acyclic graph (diamonds), entered from 2..4 use sites whose names / positions are shuffled, so that the order in which "
+        "documents are first met is independent of the evaluation paths. Non-trivial: >= 2 resources; distinct = operation text")
 TRUSTED = ["python oracle implementing the outermost-resource rule for the expected marks"]
 BASE = "http://x.test/dyn/root.json"
 
